@@ -171,7 +171,7 @@ def gen_plan(rng):
         name = "Sub%d" % j
         nested = []
         if cfg["nest"] and libs and rng.random() < 0.7:
-            cands = [l for l in libs if l["depth"] < 2]
+            cands = [l for l in libs if l["depth"] < 3]
             if cands:
                 nested = rng.sample(cands, 1 if rng.random() < 0.8 else min(2, len(cands)))
         params = rng.sample(PARAMS, rng.choice([0, 0, 1, 1, 2, 3]))
